@@ -2,6 +2,7 @@
    ONLY statements, each closed by `exact <lemma>`, with Print Assumptions. *)
 From Coq Require Import List ZArith Bool.
 From AN Require Import Model.Srv Proofs.SrvInv Proofs.SrvTheorems.
+From AN Require Proofs.SrvPick.
 Import ListNotations.
 
 (* For every limit L >= 1, every number of workers (up to the documented 512), every set of listeners and
@@ -67,7 +68,19 @@ Example C02_stays_example :
   map l_backlog (lsts (fst (accept 1 st 0 []))) = [[3%N]].
 Proof. vm_compute. repeat split. Qed.
 
+(* A worker picking a connection up from its queue is invisible to the accept side and to the log: it moves the oldest queued
+   connection to the picked list of that worker generation and changes nothing else, so WHEN workers pick up (at once, or only
+   after a back-pressure episode of their services) does not influence any count the accept thread works with. *)
+Theorem C02_pick_invisible : forall (L : Z) st g,
+  let st' := env_step L st (Pick g) in
+  map SrvPick.wview (ws st') = map SrvPick.wview (ws st) /\
+  trace st' = trace st /\ handles st' = handles st /\ next st' = next st /\ av st' = av st /\ paused st' = paused st /\
+  ptimeout st' = ptimeout st /\ lsts st' = lsts st /\ wq st' = wq st /\ wpend st' = wpend st /\ now st' = now st /\
+  stopped st' = stopped st /\ err st' = err st.
+Proof. exact SrvPick.pick_only_moves. Qed.
+
 Print Assumptions C02_limit.
 Print Assumptions C02_limit_at_yield.
 Print Assumptions C02_saturated_unavailable.
 Print Assumptions C02_beyond_limit_stays.
+Print Assumptions C02_pick_invisible.
